@@ -51,9 +51,50 @@ def switch_outcomes(body, bb, senv):
     return opts
 
 
-def dominating_guards(body, site_bb, senv=None):
-    """[(atom_expr, outcome, switch_bb)] for all switch edges that edge-dominate site_bb."""
+def dominating_guards(body, site_bb, senv=None, _depth=0):
+    """[(atom_expr, outcome, switch_bb)] for all switch edges that edge-dominate site_bb.  A test of the variant of a
+    local that is assigned in several places (`let c = if flag { Some(x) } else { None }; ... if let Some(x) = c`)
+    carries with it what dominates every assignment of that variant (here: flag)."""
     senv = senv or StaticEnv(body)
+    res = _dominating_guards(body, site_bb, senv)
+    if _depth < 2:
+        extra = []
+        for atom, o, s in res:
+            if atom[0] == "variant" and isinstance(o, tuple) and o[0] == "variant" and isinstance(atom[1], tuple) and atom[1][0] in ("var", "ref") :
+                x = atom[1]
+                while x[0] == "ref":
+                    x = x[1]
+                if x[0] != "var":
+                    continue
+                l = x[1]
+                sites = []
+                okk = True
+                for kind, bi, si in senv.defs.get(l, []):
+                    if kind != "stmt":
+                        okk = False
+                        break
+                    rv = body.blocks[bi]["stmts"][si]["rv"]
+                    if rv.get("k") == "agg" and rv.get("agg") == "adt" and "variant" in rv:
+                        if rv["variant"] == o[1]:
+                            sites.append(bi)
+                    else:
+                        okk = False
+                        break
+                if not okk or not sites or l in senv.mut_borrowed:
+                    continue
+                common = None
+                for bi in sites:
+                    gsx = {(a, repr(oo)): (a, oo, ss) for a, oo, ss in dominating_guards(body, bi, senv, _depth + 1)}
+                    common = gsx if common is None else {k: v for k, v in common.items() if k in gsx}
+                have = {(a, repr(oo)) for a, oo, _ in res}
+                for k, v in (common or {}).items():
+                    if k not in have:
+                        extra.append(v)
+        res = res + extra
+    return res
+
+
+def _dominating_guards(body, site_bb, senv):
     res = []
     for s in range(len(body.blocks)):
         if body.blocks[s]["term"]["k"] != "switch":
